@@ -18,7 +18,7 @@ VERIF = os.path.dirname(os.path.dirname(os.path.abspath(__file__)))
 class Contract:
     def __init__(self, id, target, props, params=None, requires=(), ensures=(), raises=None, loops=None,
                  returns=None, modular=(), unroll=0, max_paths=3000, note='', setup=None, ghost=None,
-                 as_callee=False, allow_raise=(), known=None, max_recursion=1, decorators=(), regex_env=None, ghost_after=None, modifies=(), bounded=None, assumed=None):
+                 as_callee=False, allow_raise=(), known=None, max_recursion=1, decorators=(), regex_env=None, ghost_after=None, modifies=(), bounded=None, assumed=None, native_ensures=()):
         self.id = id
         self.target = target
         self.props = list(props)
@@ -39,6 +39,7 @@ class Contract:
         self.max_recursion = max_recursion
         self.decorators = list(decorators)
         self.regex_env = regex_env or {}
+        self.native_ensures = list(native_ensures)      # clauses evaluated only natively (no ghost witnesses): used by the native probe
         self.ghost_after = ghost_after or {}
         self.repair_strings = False
         self.assumed = assumed     # text: an ASSUMED contract (used only at modular call sites, never verified, listed as assumption)
@@ -415,6 +416,41 @@ def verify(env, c, thorough=False):
             for (i, _), r in zip(narrowed, nres):
                 if r.verdict == 'sat':
                     results[i] = r
+        # second counterexample search: pin the top-level integer inputs to concrete values (a model found with pinned inputs
+        # is a counterexample for the whole domain; string-heavy VCs are often only decidable this way)
+        still = [i for i in retry[:12] if results[i].verdict == 'unknown']
+        if still:
+            from .path import Obligation
+            import random as _rnd
+            rnd = _rnd.Random(7)
+            pinned = []
+            for i in still:
+                ob = all_obs[i]
+                ints = [v for v in paths[ob.path_id].inputs.values() if isinstance(v, Sym) and v.kind == INT]
+                if not ints:
+                    continue
+                for attempt in range(2):
+                    sv = z3.Solver()
+                    sv.set('timeout', 2000)
+                    for t in ob.pc:
+                        if not z3.is_quantifier(t):
+                            sv.add(t)
+                    extra = []
+                    for v in ints:
+                        sv.push()
+                        cand = z3.IntVal(rnd.choice([0, 1, 2, 3, 5, 7, 11, 12, 13, 19, 23, 24, 25]))
+                        sv.add(v.t == cand)
+                        if sv.check() == z3.sat:
+                            extra.append(v.t == cand)
+                        else:
+                            sv.pop()
+                    if extra:
+                        pinned.append((i, Obligation(ob.name, ob.kind, ob.line, list(ob.pc) + extra, ob.goal, ob.tainted, ob.path_id, ob.note, ob.func)))
+            if pinned:
+                pres = solve.discharge([o for _, o in pinned], thorough)
+                for (i, _), r in zip(pinned, pres):
+                    if r.verdict == 'sat' and results[i].verdict == 'unknown':
+                        results[i] = r
     for ob, r in zip(all_obs, results):
         o = res.obligations.get(ob.name)
         if o is None:
@@ -434,6 +470,13 @@ def verify(env, c, thorough=False):
                     o.verdict = 'unknown'
                 o.tainted_refutation = True
                 o.reason = 'refuted only on a path through engine havoc (tainted)'
+                if o.witness is None and r.model_ref is not None:
+                    # kept only as a starting point for the adversarial-input search of the runner; not a counterexample
+                    try:
+                        from .witness import concretize
+                        o.witness = {k: concretize(r.model_ref, v) for k, v in paths[ob.path_id].inputs.items()}
+                    except Exception as e:
+                        o.witness_error = f'{type(e).__name__}: {e}'
             else:
                 o.verdict = 'sat'
                 o.tainted_refutation = False
